@@ -136,7 +136,7 @@ def run(chk, tier, seed):
              # the same outer generic instantiated again: nested generic calls must follow the outer call's own arguments
              ('nest', {'T': 'i32', 'N': '3'}), ('nest', {'T': 'u8', 'N': '2'}), ('nest', {'T': 'i32', 'N': '2'}),
              ('twice', {'N': '2'}), ('twice', {'N': '5'}), ('twice', {'N': '2'}), ('fwd', {'T': 'u16', 'K': '3'}), ('fwd', {'T': 'i64', 'K': '4'})]
-    instances = fixed + gen_instances(rnd, 14 if tier == 'quick' else 150)
+    instances = fixed + gen_instances(rnd, 14 if tier == "quick" else 900)
     lines, obs = sources(instances)
     src = clifcheck.PRELUDE + '\n'.join(lines) + '\n'
     refs = 'refs :: () {\n' + '\n'.join('    r%d := %s; q%d := %s;' % (i, o['wrapper'], i, o['copy']) for i, o in enumerate(obs)) + '\n}\n'
